@@ -71,26 +71,40 @@ def _is_self_attr(node, names):
             and isinstance(node.value, ast.Name) and node.value.id == "self")
 
 
-def select_points(mod, attrs=("pool",), dense_funcs=(), skip_funcs=("__init__",)):
-    """Return {code object: {line: kind}}.  kind: "test" (`self.pool` inside a comparison),
-    "swap" (`self.pool` is stored), "load" (`self.pool` read for use), "line" (dense mode only)."""
+# kinds the pattern is expected to find per pool function; when a function no longer shows them (a
+# refactor moved the shared accesses), every line of that function becomes a preemption point instead
+EXPECT_CLASS = "HTTPConnectionPool"
+EXPECT = {"_get_conn": {"test", "load"}, "_put_conn": {"load"}, "close": {"test", "swap"}}
+
+
+def select_points(mod, attrs=("pool",), dense_funcs=(), skip_funcs=("__init__",), expect=None, fallback=None):
+    """Return {code object: (func, {line: kind}, inline_lines)}.  kind: "test" (`self.pool` inside a
+    comparison), "swap" (`self.pool` is stored), "load" (`self.pool` read for use), "line" (dense mode /
+    dense fallback).  inline_lines: lines where the loaded `self.pool` is itself the receiver of a call
+    (`self.pool.get(...)`: load and use in one expression).  Functions listed in `expect` whose
+    pattern-located kinds are incomplete are made dense and their names appended to `fallback`."""
     tree = ast.parse(inspect.getsource(mod))
-    per_func = {}   # (name, firstlineno) -> {line: kind}
+    per_func = {}   # (name, firstlineno) -> ({line: kind}, inline)
     rank = {"line": 0, "load": 1, "test": 2, "swap": 3}
+    expect = expect or {}
+    pool_methods = {id(f) for c in ast.walk(tree) if isinstance(c, ast.ClassDef) and c.name == EXPECT_CLASS
+                    for f in c.body if isinstance(f, (ast.FunctionDef, ast.AsyncFunctionDef))}
 
     def note(d, line, kind):
-        if rank[kind] > rank.get(d.get(line, "line"), -1) or line not in d:
+        if line not in d or rank[kind] > rank[d[line]]:
             d[line] = kind
 
     for fn in ast.walk(tree):
         if not isinstance(fn, (ast.FunctionDef, ast.AsyncFunctionDef)) or fn.name in skip_funcs:
             continue
-        d = {}
+        d, inline = {}, set()
         compares = set()
         for node in ast.walk(fn):
             if isinstance(node, ast.Compare):
                 for sub in ast.walk(node):
                     compares.add(id(sub))
+            if isinstance(node, ast.Call) and isinstance(node.func, ast.Attribute) and _is_self_attr(node.func.value, attrs):
+                inline.add(node.func.value.lineno)
         for node in ast.walk(fn):
             if _is_self_attr(node, attrs):
                 if isinstance(node.ctx, ast.Store):
@@ -99,22 +113,28 @@ def select_points(mod, attrs=("pool",), dense_funcs=(), skip_funcs=("__init__",)
                     note(d, node.lineno, "test")
                 else:
                     note(d, node.lineno, "load")
-        if fn.name in dense_funcs:
+        dense = fn.name in dense_funcs
+        if id(fn) in pool_methods and fn.name in expect and not expect[fn.name] <= set(d.values()):
+            dense = True
+            if fallback is not None:
+                fallback.append(f"{fn.name}: pattern found {sorted(set(d.values()))}, expected {sorted(expect[fn.name])}")
+        if dense:
             for node in ast.walk(fn):
                 if isinstance(node, ast.stmt) and node is not fn:
                     note(d, node.lineno, "line")
         if d:
             first = fn.decorator_list[0].lineno if fn.decorator_list else fn.lineno
-            per_func[(fn.name, first)] = d
+            per_func[(fn.name, first)] = (d, inline)
     out = {}
     for co in _code_objects(mod):
-        d = per_func.get((co.co_name, co.co_firstlineno))
-        if d:
-            out[co] = (co.co_name, d)
+        ent = per_func.get((co.co_name, co.co_firstlineno))
+        if ent:
+            out[co] = (co.co_name, ent[0], ent[1])
     return out
 
 
-_POINTS = {}        # code -> (funcname, {line: kind})
+_POINTS = {}        # code -> (funcname, {line: kind}, inline lines)
+_FALLBACK = []      # functions whose shared accesses were not located by pattern (dense fallback in use)
 _ACTIVE = None      # the Scheduler currently running (at most one per process)
 _REGISTERED = False
 _INSTRUMENTED = None
@@ -129,7 +149,7 @@ def _on_line(code, line):
         return None
     kind = ent[1].get(line)
     if kind is not None:
-        s.yield_point(kind, ent[0], line)
+        s.yield_point(kind, ent[0], line, line in ent[2])
     return None
 
 
@@ -148,13 +168,24 @@ def instrument(modules, dense=False, dense_funcs=("_get_conn", "_put_conn", "clo
         for co in list(_POINTS):
             sys.monitoring.set_local_events(TOOL, co, 0)
         _POINTS.clear()
-        for mod in modules:
-            _POINTS.update(select_points(mod, dense_funcs=dense_funcs if dense else ()))
+        del _FALLBACK[:]
+        for i, mod in enumerate(modules):
+            _POINTS.update(select_points(mod, dense_funcs=dense_funcs if dense else (), expect=EXPECT if i == 0 else None,
+                                         fallback=_FALLBACK))
+        found = {name for name, _, _ in _POINTS.values()}
+        missing = [f for f in EXPECT if f not in found]
+        if missing:     # nothing to hang a preemption point on: the pool functions themselves are gone
+            raise MachineryError(f"scheduler: pool functions not found in {modules[0].__name__}: {missing}")
         for co in _POINTS:
             sys.monitoring.set_local_events(TOOL, co, sys.monitoring.events.LINE)
         _INSTRUMENTED = key
     return {f"{co.co_filename.rsplit('/', 1)[-1]}:{name}": {str(k): v for k, v in sorted(d.items())}
-            for co, (name, d) in _POINTS.items()}
+            for co, (name, d, _) in _POINTS.items()}
+
+
+def fallbacks():
+    """Functions for which the dense fallback is in use (pattern did not locate the expected accesses)."""
+    return list(_FALLBACK)
 
 
 # --------------------------------------------------------------------------------------- scheduler
@@ -190,7 +221,7 @@ class Scheduler:
         n = threading.current_thread().name
         return n if n in self.sem else None
 
-    def yield_point(self, kind, func="", line=0):
+    def yield_point(self, kind, func="", line=0, inline=False):
         n = threading.current_thread().name
         if n not in self.sem or self.aborting:
             return
@@ -201,6 +232,8 @@ class Scheduler:
         self.sem[n].acquire()
         if self.aborting:
             raise Abort()
+        if kind in ("test", "load", "swap"):     # the thread now executes that line
+            self.on_event({"e": "point", "th": n, "kind": kind, "func": func, "line": line, "inline": inline})
 
     def wait_nonempty(self, q):
         n = threading.current_thread().name
